@@ -7,7 +7,7 @@ ID = "C15"
 LIMIT = 30.0
 RULE = ("triangle meshes without unused vertices (grids, fans, annuli, polyhedra, tori, Delaunay, unions, books, Moebius; flips, "
         "relabelling, scales 1e-5..1e3) x scalar / 2- / 3-column functions of dtype float64, float32, int64, uint8, bool, including "
-        "constants and very small amplitudes (1e-10) x weighted in {False,True} x n in 0..6; plus wrong-length inputs. "
+        "constants and very small amplitudes (1e-10) x weighted in {False,True} x n in 0..6; plus wrong-length inputs; plus one history per case on a single object (weighted map, then smooth_ / normalize_ / assignment to v, then weighted map of the constant 1 = vertex areas of the current surface). "
         "distinct = hash of the case; non-trivial = non-constant function on a mesh with non-uniform valence")
 TRUSTED = ["np.add.at accumulation, sparse multiply broadcasting, sparse dot (modelled)"]
 ASSUMPTIONS = ["integer / bool inputs are passed to the model as their float values (the code converts via float arithmetic)"]
@@ -65,7 +65,7 @@ def generate(rng, tier):
         cases.append({"family": fam, "v": v, "t": t, "weighted": rng.random() < 0.5, "k": rng.choice([0, 1, 1, 2, 3, 6]),
                       "ncol": ncol, "dtype": dt, "kind": kind,
                       "tcols": _func(rng, len(t), ncol, dt, kind), "vcols": _func(rng, len(v), ncol, dt, kind),
-                      "wrong_len": rng.random() < 0.08})
+                      "wrong_len": rng.random() < 0.08, "hist": rng.choice(["smooth", "normalize", "assign"])})
     return cases
 
 
@@ -123,6 +123,32 @@ def run_impl(case):
             out["smooth_scaled"] = _cols(m3.smooth_vfunc(f * 1e-10, case["k"]))
     except Exception as e:
         out["smooth_mesh"] = core.errkind(e)
+    # history on one object: map (weighted), change the geometry in place, map again -- the second map must be that of the
+    # current surface (the constant 1 maps to the vertex areas of the current surface)
+    try:
+        m4 = TriaMesh(v.copy(), t.copy())
+        one = np.ones(len(t))
+        m4.map_tfunc_to_vfunc(one, weighted=True)
+        hist = case.get("hist", "smooth")
+        if hist == "smooth":
+            m4.smooth_(2)
+        elif hist == "normalize":
+            m4.normalize_()
+        else:
+            m4.v = m4.v * 3.0
+        cur = np.asarray(m4.v, dtype=float)
+        got = np.asarray(m4.map_tfunc_to_vfunc(one, weighted=True), dtype=float).ravel()
+        ar = np.linalg.norm(np.cross(cur[t[:, 1]] - cur[t[:, 0]], cur[t[:, 2]] - cur[t[:, 0]]), axis=1) / 2
+        ref = np.zeros(len(cur))
+        np.add.at(ref, t.reshape(-1), np.repeat(ar / 3.0, 3))
+        ext = float(np.abs(cur - cur.mean(0)).max())      # a book collapses onto its spine under smoothing: areas ~ rounding noise
+        degenerate = np.abs(ref).max() < 1e-6 * ext * ext
+        # tria_areas uses Heron's formula: on (nearly) degenerate triangles its absolute error is ~ sqrt(eps) * edge^2
+        emax = max(float(np.linalg.norm(cur[t[:, i]] - cur[t[:, (i + 1) % 3]], axis=1).max()) for i in range(3))
+        excess = float(np.abs(got - ref).max()) - 1e-7 * emax * emax
+        out["hist_err"] = 0.0 if degenerate or excess <= 0 else excess / float(np.abs(ref).max())
+    except Exception as e:
+        out["hist_err"] = core.errkind(e)
     return out
 
 
@@ -163,6 +189,9 @@ def oracle(case, out):
         bad("inputs_not_modified", "a caller-owned array changed")
     if not out["t2v_repeatable"]:
         bad("map_tfunc_to_vfunc_repeatable", "second call with same input differs")
+    he = out.get("hist_err", 0.0)
+    if isinstance(he, str) or he > 1e-9:
+        bad("weighted_map_uses_areas_of_the_current_surface", f"after {case.get('hist', 'smooth')} on the same object: {he}", "history")
     TF = np.array(case["tcols"]).T
     VF = np.array(case["vcols"]).T
     A = np.linalg.norm(np.cross(p[t[:, 1]] - p[t[:, 0]], p[t[:, 2]] - p[t[:, 0]]), axis=1) / 2
